@@ -145,6 +145,7 @@ def _is_default_call_result(b, local):
 
 
 def run_roots(ctx, A, bodies, rid, modular=()):
+    A.ip.source_calls = True
     """analyse every root in `bodies`; returns log start index.
     modular: def-path prefixes of roots that, once analysed from arbitrary invariant states, are treated as opaque total
     functions when later roots call them (their obligations are already in the log)."""
@@ -363,6 +364,12 @@ def loop_certificates(ctx, A, bodies, rid, since=0):
                     any((o.get("measure") or "").endswith("shrinks") for o in os_):
                 ok = True
                 why.append("L3: a slice strictly shrinks on every back edge (%s)" % ",".join(measures))
+            if any(o["mode"] == "fixpoint" for o in os_) and \
+                    all(o["mode"] == "unrolled" or o.get("measure") in ("source-item-consumed", "no-back-edge") for o in os_) and \
+                    any(o.get("measure") == "source-item-consumed" for o in os_):
+                ok = True
+                why.append("L4: every back edge has taken an item from a caller-supplied source, and no path on which the source "
+                           "reported exhaustion returns to the loop head (A4: the source eventually ends)")
             if not os_:
                 ok = False
                 why.append("loop never reached by the analysis")
